@@ -347,3 +347,7 @@ def run(ctx):
                       f"{b.path}: the text handed to from_plain passes through {bad}: a parameter must be parsed from exactly the text that was sent (PLAIN strings may legitimately start or end with any character)",
                       instance=f"{b.path.split('::')[-2] if '::' in b.path else b.path}: from_plain(received text)")
     ctx.floor("R12.6", "from_plain calls in the HTTP parameter decoders", nfp, 1)
+    # ---------------- R12.7 a path parameter's PLAIN text reaches from_plain as sent ('/' inside it included): shared with C07
+    from . import c07, c15
+    ctx.include(c15, {"O7"}, "R12.8", "the PLAIN text of every safelong in range (17 characters for the most negative ones) must parse back")
+    ctx.include(c07, {"R7.5"}, "R12.7", "the PLAIN text of a path parameter (Base64 and tokens may contain '/') must reach the parser as the client wrote it")
